@@ -54,7 +54,7 @@ CLAIMS = {
     },
     "C12": {
         "text": "==, cmp, partial_cmp and Hash of LanguageIdentifier are compared with a field-by-field reference (absent first) on symbolic pairs and triples; x == y iff to_string equal (real Display); comparison with &str iff the string is the canonical text, for every ASCII string of <= 16 bytes.",
-        "note": TRUST + " Hash is decided for a fixed FNV-1a hasher defined in the harness.",
+        "note": TRUST + " Hash is decided for a fixed rotate-xor hasher with a write counter, defined in the harness.",
     },
     "C13": {
         "text": "Both token-level entries are run on the same fully symbolic subtags: whenever LanguageIdentifier accepts, Locale accepts with an identical id and no extensions; conversions LanguageIdentifier <-> Locale and AsRef are identities on symbolic values.",
